@@ -34,14 +34,14 @@ type rigCfg struct {
 }
 
 type rigOp struct {
-	K    string `json:"k"`           // open write deliver read close reset sclose sleep readfrom addconn
-	Side int    `json:"side"`        // 0 client, 1 server
-	S    int    `json:"s,omitempty"` // stream index (0-based, client stream id = S+1)
-	N    int    `json:"n,omitempty"` // write size / read buffer size / partial permille
-	C    int    `json:"c,omitempty"` // connection index
-	Mode int    `json:"m,omitempty"` // deliver: 0 one record, 1 N permille of the head record, 2 everything pending on conn
-	D    int    `json:"d,omitempty"` // sleep ms
-	L    []int  `json:"l,omitempty"` // readfrom chunk sizes
+	K    string  `json:"k"`             // open write deliver read close reset sclose sleep readfrom addconn
+	Side int     `json:"side"`          // 0 client, 1 server
+	S    int     `json:"s,omitempty"`   // stream index (0-based, client stream id = S+1)
+	N    int     `json:"n,omitempty"`   // write size / read buffer size / partial permille
+	C    int     `json:"c,omitempty"`   // connection index
+	Mode int     `json:"m,omitempty"`   // deliver: 0 one record, 1 N permille of the head record, 2 everything pending on conn
+	D    int     `json:"d,omitempty"`   // sleep ms
+	L    []int   `json:"l,omitempty"`   // readfrom chunk sizes
 	Par  []rigOp `json:"par,omitempty"` // operations started in the same step, before quiescence is awaited
 }
 
@@ -72,31 +72,31 @@ type rigStream struct {
 	rdErr  error // first error returned by Read
 	rdErrs int
 
-	wrBusy   bool
-	wrCh     chan ioRes
-	wrSize   int
-	wrFrom   bool  // in-flight op is a ReadFrom
-	accepted int64 // bytes of completed, successful writes
-	attempted int64 // bytes handed to Write calls (completed or not)
-	wrErr    error
+	wrBusy         bool
+	wrCh           chan ioRes
+	wrSize         int
+	wrFrom         bool  // in-flight op is a ReadFrom
+	accepted       int64 // bytes of completed, successful writes
+	attempted      int64 // bytes handed to Write calls (completed or not)
+	wrErr          error
 	wrExpectFail   bool  // the in-flight write was started after a local close or a processed peer close
 	wrAfterCloseOK int   // writes that succeeded although started after close
 	handedAtClose  int64 // bytes handed to this side's receive buffer when it called Close
 
-	closeBusy   bool
-	closeCh     chan error
-	closeCalled bool // Close() was issued locally
-	closeDone   bool
-	closeErr    error
+	closeBusy       bool
+	closeCh         chan error
+	closeCalled     bool // Close() was issued locally
+	closeDone       bool
+	closeErr        error
 	closeAtAccepted int64
 
 	// datagram mode
-	dgSent    [][]byte
-	dgMatched []bool
-	dgGot     [][]byte
-	shortBuf  int
-	lastShort bool
-	dgRefused int
+	dgSent       [][]byte
+	dgMatched    []bool
+	dgGot        [][]byte
+	shortBuf     int
+	lastShort    bool
+	dgRefused    int
 	dgRefusedIdx []int
 }
 
@@ -133,10 +133,10 @@ type rig struct {
 	acceptExited [2]bool
 
 	// datagram-mode model: per receiving side and stream, the multiset of datagrams that must be readable
-	dgQ    [2]map[uint32][][]byte
-	dgDead [2]map[uint32]bool // the receiver's stream no longer accepts frames (closing frame arrived / closed locally)
-	dgLost int                // datagrams that arrived on a dead stream (dropped legitimately)
-	dgSessDead [2]bool        // the receiving session was closed before the frame arrived
+	dgQ        [2]map[uint32][][]byte
+	dgDead     [2]map[uint32]bool // the receiver's stream no longer accepts frames (closing frame arrived / closed locally)
+	dgLost     int                // datagrams that arrived on a dead stream (dropped legitimately)
+	dgSessDead [2]bool            // the receiving session was closed before the frame arrived
 }
 
 // modelOpen is the number of open streams a side must be counting, derived from the operations and the tap.
